@@ -310,8 +310,8 @@ class SsdpProtocol(DatagramProtocol):
         if is_valid_ssdp_packet(data):
             try:
                 request_line, headers = decode_ssdp_packet(data, self.local_addr, addr)
-            except BadHttpMessage as exc:
-                # InvalidHeader, LineTooLong, ...
+            except (BadHttpMessage, UnicodeDecodeError) as exc:
+                # InvalidHeader, LineTooLong, ... or a request line which is not UTF-8
                 _LOGGER.debug("Ignoring received packet with invalid headers: %s", exc)
                 return
 
